@@ -4,6 +4,7 @@
 import C4E.Distr1
 import C4E.Distributor
 import C4E.Lemmas.AListLemmas
+import C4E.Lemmas.DistrFaithful
 namespace C4E.Props.C14
 open C4E C4E.Distr1
 
@@ -315,6 +316,34 @@ theorem payoutOne_keeps_books (e : Env) (w w' : Distr.World) (s s' : DState) (d 
                   show amountOf (b.balance e.mainAddr) d * P - amountOf (truncateDecimal s.remains).2 d = _
                   rw [this, Int.sub_mul]; omega
     · cases h; rfl
+
+theorem remSumF_append (d : String) (a b : List DState) : remSumF d (a ++ b) = remSumF d a + remSumF d b := by
+  induction a with
+  | nil => simp [remSumF]
+  | cons x xs ih => simp only [List.cons_append, remSumF, ih]; omega
+
+/-- **the whole payout loop of the code-tied model** (`SendCoinsFromStates`), any pattern of failing
+    payouts and burns: `main × 10^18 − Σ remains` is the same before and after, in every
+    denomination — nothing is lost and nothing is double counted by the payouts -/
+theorem payoutLoop_keeps_books (e : Env) (d : String) : ∀ (l : List DState) (w w' : Distr.World) (st st' : List DState),
+    payoutLoop e l w st = .ok (w', st') →
+    (∀ s ∈ l, ∀ a, s.account = some a → s.burn = false → destAddr e a ≠ some e.mainAddr) →
+    amountOf (w'.bank.balance e.mainAddr) d * P - remSumF d st'
+      = amountOf (w.bank.balance e.mainAddr) d * P - remSumF d st - remSumF d l
+  | [], w, w', st, st', h, _ => by
+    simp only [payoutLoop, Outcome.ok.injEq, Prod.mk.injEq] at h
+    rw [← h.1, ← h.2]; simp [remSumF]
+  | s :: rest, w, w', st, st', h, hne => by
+    unfold payoutLoop at h
+    split at h
+    · rename_i s1 w1 hp
+      have h1 := payoutOne_keeps_books e w w1 s s1 d hp (hne s (by simp))
+      have h2 := payoutLoop_keeps_books e d rest w1 w' _ st' h (fun x hx => hne x (by simp [hx]))
+      rw [h2, remSumF_append]
+      simp only [remSumF]
+      omega
+    · cases h
+    · cases h
 
 end FaithfulPayout
 
